@@ -341,3 +341,62 @@ def check_case_c32(eoc, ops, recs):
             committed_persistent = {i: k for i, k in committed_persistent.items() if cur[i] == "S" and objs[i]["key"] == k}
         prev = r
     return None
+
+
+# =============================================================================== C34, identity tokens
+def check_case_tokens(eoc, ops, recs):
+    """Direct oracle for identity tokens (not modelled in Lean): identity key = (class, pk, token).
+
+    K1 identity_map[(pk, token)] is a persistent instance whose own key is (pk, token)
+    K2 get(pk, identity_token=t): an instance present under (pk, t) and not expired is returned
+       without SQL; whatever is returned carries exactly (pk, t) and is the identity map's
+       instance for that key; an instance under another token is never returned
+    K3 a query executed with identity_token=t returns, for every row, the identity map's
+       instance for (pk, t)
+    """
+    prev = None
+    for j, (op, r) in enumerate(zip(ops, recs)):
+        if r is None:
+            return None
+        kind = op[0]
+        failed = r["res"].startswith("err:")
+        objs = r["objs"]
+        cur = [state_letter(o) for o in objs]
+        imap = {(k, t): i for k, t, i in r["imap_t"]}
+        for (k, t), i in imap.items():
+            if not (0 <= i < len(objs)) or cur[i] not in "SD" or objs[i]["key"] != k or objs[i]["token"] != t:
+                return dict(i=j, check="K1", sig="imap-entry-key-token-mismatch",
+                            detail="identity_map[(%s, %r)] is instance %s with key (%s, %r) state %s" % (
+                                k, t, i, objs[i]["key"] if 0 <= i < len(objs) else "?", objs[i]["token"] if 0 <= i < len(objs) else "?", cur[i] if 0 <= i < len(objs) else "?"))
+        if not failed and kind in ("get", "gett"):
+            k = op[1]
+            t = op[2] if kind == "gett" else None
+            ret = _ret(r["res"])
+            if prev is not None:
+                pcur = [state_letter(o) for o in prev["objs"]]
+                pres = [i for kk, tt, i in prev["imap_t"] if kk == k and tt == t and 0 <= i < len(pcur) and pcur[i] == "S" and not prev["objs"][i]["expired"]]
+                if pres:
+                    if ret != pres[0]:
+                        return dict(i=j, check="K2", sig="get-present-returned-other", detail="get(%s, token=%r): instance %d was present and unexpired, got %s" % (k, t, pres[0], ret))
+                    if r["q"] > 0:
+                        return dict(i=j, check="K2", sig="get-present-emitted-sql", detail="get(%s, token=%r): instance %d was present and unexpired but SQL was emitted" % (k, t, pres[0]))
+            if ret is not None:
+                if objs[ret]["key"] != k or objs[ret]["token"] != t:
+                    return dict(i=j, check="K2", sig="get-returned-other-identity", obj=ret,
+                                detail="get(%s, token=%r) returned instance %d whose identity is (%s, %r)" % (k, t, ret, objs[ret]["key"], objs[ret]["token"]))
+                if imap.get((k, t)) != ret and cur[ret] == "S":
+                    return dict(i=j, check="K2", sig="get-returned-not-the-map-instance", obj=ret,
+                                detail="get(%s, token=%r) returned instance %d but identity_map has %s" % (k, t, ret, imap.get((k, t))))
+        if not failed and kind in ("query", "queryt"):
+            t = op[1] if kind == "queryt" else None
+            ret = _ret(r["res"])
+            for i in ret:
+                if objs[i]["token"] != t or imap.get((objs[i]["key"], t)) != i:
+                    return dict(i=j, check="K3", sig="query-returned-other-identity", obj=i,
+                                detail="query(token=%r) returned instance %d with identity (%s, %r); identity_map[(%s, %r)] = %s" % (
+                                    t, i, objs[i]["key"], objs[i]["token"], objs[i]["key"], t, imap.get((objs[i]["key"], t))))
+            keys = [objs[i]["key"] for i in ret]
+            if keys != r["db"]:
+                return dict(i=j, check="K3", sig="query-rows-vs-instances", detail="query(token=%r) returned keys %s, rows visible %s" % (t, keys, r["db"]))
+        prev = r
+    return None
